@@ -1212,3 +1212,41 @@ Lemma rule1_meaning : forall {K D} (eqb : K -> K -> bool) (same : entry D -> ent
   rule1 eqb same t t' <->
   forall k x y, stored eqb t k x -> stored eqb t' k y -> same x y = true -> y = x \/ newer y x = true.
 Proof. intros. reflexivity. Qed.
+
+(* ------------------------------------------------------------------ *)
+(** * Full disconnect, and concrete instances (non-vacuity) *)
+
+(** the agent's disconnect handler calls the four disconnect operations in a
+    row: afterwards every table has lost exactly the peer's routes *)
+Lemma full_disconnect : forall (local : N) (ops : list op) (p : N),
+  let m := run local ops in
+  let m' := run local (ops ++ [ODisc p; ODDisc p; OFDisc p; OADisc p]) in
+  filtered prefix_eqb (keep_peer p) (m_cidr m) (m_cidr m') /\
+  filtered str_eqb (keep_peer p) (m_dexact m) (m_dexact m') /\
+  filtered str_eqb (keep_peer p) (m_dwild m) (m_dwild m') /\
+  filtered str_eqb (keep_peer p) (m_fwd m) (m_fwd m') /\
+  filtered N.eqb (keep_peer p) (m_agent m) (m_agent m').
+Proof.
+  intros local ops p m m'.
+  pose proof (disconnect_over_histories local ops p) as (H1 & _).
+  pose proof (disconnect_over_histories local (ops ++ [ODisc p]) p) as (_ & H2 & _).
+  pose proof (disconnect_over_histories local ((ops ++ [ODisc p]) ++ [ODDisc p]) p) as (_ & _ & H3 & _).
+  pose proof (disconnect_over_histories local (((ops ++ [ODisc p]) ++ [ODDisc p]) ++ [OFDisc p]) p) as (_ & _ & _ & H4).
+  cbv zeta in H1, H2, H3, H4.
+  rewrite <- !run_app in H1, H2, H3, H4.
+  replace ((((ops ++ [ODisc p]) ++ [ODDisc p]) ++ [OFDisc p]) ++ [OADisc p])
+    with (ops ++ [ODisc p; ODDisc p; OFDisc p; OADisc p]) in H4 by (rewrite <- !app_assoc; reflexivity).
+  fold m in H1. fold m' in H4.
+  destruct H1 as (A1 & B1 & C1 & D1 & E1).
+  destruct H2 as (A2 & B2 & C2 & D2 & E2).
+  destruct H3 as (A3 & B3 & C3 & D3 & E3).
+  destruct H4 as (A4 & B4 & C4 & D4 & E4).
+  unfold filtered in *.
+  split; [|split; [|split; [|split]]]; intros k.
+  - rewrite B4, B3, C2. apply A1.
+  - rewrite C4, C3. rewrite A2. now rewrite B1.
+  - rewrite D4, D3. rewrite B2. now rewrite C1.
+  - rewrite E4. rewrite A3. now rewrite D2, D1.
+  - rewrite A4. now rewrite E3, E2, E1.
+Qed.
+
